@@ -100,7 +100,8 @@ var malformed = []string{
 	":+5\r\n", ":-0\r\n", ":007\r\n", "$+3\r\nabc\r\n", "$03\r\nabc\r\n", ":9223372036854775807\r\n", ":9223372036854775808\r\n",
 	":-9223372036854775808\r\n", ":-9223372036854775809\r\n", ": 1\r\n", ":\r\n", ":-\r\n", ":+\r\n", ":1_0\r\n", ":0x10\r\n", ":1e3\r\n",
 	"+\r\n", "-\r\n", "\r\n", "\n", " \r\n", "   \r\n", "$3\r\nabcXY", "$3\r\nabc\rX", "$3\r\nabc\n\n", "$0\r\n\r\n", "$0\r\n", "*0\r\n",
-	"*1\r\n*1\r\n*1\r\n*1\r\n*1\r\n:1\r\n", "*2\r\n:1\r\n", "*1\r\nPING\r\n", "PING\r\n", "PING\n", "GET  a   b \r\n", "get a\r\nget b\r\n",
+	"*1\r\n*1\r\n*1\r\n*1\r\n*1\r\n:1\r\n", strings.Repeat("*1\r\n", 31) + ":1\r\n", strings.Repeat("*1\r\n", 32) + ":1\r\n", strings.Repeat("*1\r\n", 33) + ":1\r\n",
+	strings.Repeat("*1\r\n", 32) + "*0\r\n", strings.Repeat("*1\r\n", 32) + "*-1\r\n", strings.Repeat("*2\r\n", 40), strings.Repeat("*1\r\n", 5000), "*2\r\n:1\r\n", "*1\r\nPING\r\n", "PING\r\n", "PING\n", "GET  a   b \r\n", "get a\r\nget b\r\n",
 	"+OK\n", "+OK\r", "+OK", "$", "*", ":", "*1", "$1\r", ":12345678\r\n", ":123456789\r\n", ":1234567890\r\n", ":-12345678\r\n", ":-123456789\r\n",
 	":99999999999999999999\r\n", "$99999999999999999999\r\n", "*99999999999999999999\r\n", "+a\rb\r\n", "+a\r\r\n", "$2\r\n\r\n\r\n",
 	"\x00\r\n", "\xff\xfe\r\n", "*3\r\n$3\r\nSET\r\n$1\r\nk\r\n$1\r\nv\r\n", "*1\r\n$4\r\na\r\nb\r\n",
@@ -227,7 +228,12 @@ func endOf(e string) error {
 	return nilEOF
 }
 
-func decodeCase(B int, end string, sizes []int, data []byte) string {
+func decodeCase(B int, end string, sizes []int, data []byte) (out string) {
+	defer func() {
+		if r := recover(); r != nil {
+			out = "PANIC"
+		}
+	}()
 	rd := &oracleReader{data: data, sizes: sizes, endErr: endOf(end)}
 	vs, err := redis.VerifDecodeAll(rd, B, 1<<30)
 	var b strings.Builder
